@@ -155,12 +155,12 @@ NeverOpened == {"hdr:fixed-bit-0"}
 
 FrameOutcome(r, p, c) ==
   LET t == c.ft a == c.asp IN
-  IF c.name \in NeverOpened THEN Drop
+  IF c.name \in NeverOpened THEN Benign
   ELSE IF c.name \in AlwaysFatal THEN Fatal({7, 10})
-  ELSE IF t # "" /\ c.ep \notin FrameIn(t) THEN Fatal({10, 7})          \* frame not permitted in this packet type
-  ELSE IF r = "server" /\ p = "first" /\ ~(t = "crypto" /\ a \in {"min", "repeat"}) /\ c.name \notin {"crypto:offsets", "crypto:garbage"}
-       THEN Out({"Close", "Ignored"}, AnyCode)                          \* first Initial without CRYPTO data (RFC 9000 17.2.2)
-  ELSE IF a = "trunc" THEN Fatal({7})
+  ELSE IF t # "" /\ c.ep \notin FrameIn(t) /\ a # "repeat" THEN Fatal({10, 7})          \* frame not permitted in this packet type
+  ELSE IF r = "server" /\ p = "first" THEN Open                        \* first Initial without CRYPTO data is an error (RFC 9000 17.2.2)
+  ELSE IF a = "trunc" THEN Fatal({7, 10})
+  ELSE IF a = "repeat" /\ t \notin {"padding", "ping"} THEN Open      \* includes packets larger than the receiver's buffer, which are not opened
   ELSE IF t \in {"close_transport", "close_app"} \/ c.name \in {"close:reason-not-utf8", "close:codes"}
        THEN Out({"Close"}, AnyCode)                                     \* the peer closed: draining, its code is reported
   ELSE IF t \in {"padding", "ping"} /\ a \in {"min", "repeat"} THEN Benign
@@ -173,6 +173,7 @@ DgramOutcome(r, p, c) ==
   IF f = "vn" THEN (IF r = "client" /\ p = "first" THEN Out({"Ignored", "Progress", "Close"}, {1}) ELSE Drop)
   ELSE IF f = "retry" THEN (IF r = "client" /\ p = "first" THEN Benign ELSE Drop)
   ELSE IF f = "genuine" THEN Out({"Ignored", "Progress"}, {})
+  ELSE IF f = "longhdr" /\ Opens(r, p, "i") # "no" THEN Open            \* some of these carry a correctly protected Initial packet
   ELSE Out({"Ignored", "Progress"}, {})     \* Progress: an unreadable packet makes a client re-send its flight (lost-Initial heuristic)
 
 TlsOutcome(r, p, c) == Open
@@ -188,9 +189,12 @@ Allowed(r, p, c) ==
 
 (* Classes the endpoint cannot tell apart in a phase share a signature class:
    a packet it cannot open is just "a packet of that type". *)
+WrongEpochOf(n) == CASE n = "wrong-epoch:i" -> "i" [] n = "wrong-epoch:h" -> "h" [] n = "wrong-epoch:a" -> "a" [] OTHER -> ""
 SigClass(r, p, c) ==
-  IF c.lvl = "f" /\ Opens(r, p, c.ep) = "no" /\ p \notin DeadPhases THEN "f:unopenable@" \o c.ep
-  ELSE IF c.lvl = "d" THEN "d:" \o FamOf(c.name) \o ":" \o c.name
+  IF c.lvl = "f" /\ (Opens(r, p, c.ep) = "no" \/ c.name \in NeverOpened) /\ p \notin DeadPhases THEN "f:unopenable@" \o c.ep
+  ELSE IF c.lvl = "t" /\ WrongEpochOf(c.name) # "" /\ Opens(r, p, WrongEpochOf(c.name)) = "no" /\ p \notin DeadPhases
+       THEN "f:unopenable@" \o WrongEpochOf(c.name)
+  ELSE IF c.lvl = "d" THEN "d:" \o FamOf(c.name)
   ELSE ClassId(c)
 
 -----------------------------------------------------------------------------
